@@ -32,7 +32,7 @@ def make_model(seed, tier):
     r = random.Random(seed)
     knobs = gen.Knobs(items=r.choice([3, 4, 5]), members=r.choice([2, 4]), ns_depth=r.choice([1, 2, 3]), inst_len=3)
     g = gen.WildGen(seed, knobs, multiline_defaults=False, typedefs=True, typedef_same_ns=True, param_use=0.3, this_use=0.05,
-                    class_template_p=0.4, includes=False, enum_namesakes=0.25, serialize_p=0.3)
+                    class_template_p=0.4, includes=False, enum_namesakes=0.25, serialize_p=0.3, ns_namesakes=0.25)
     mod = g.module()
     if r.random() < 0.4:
         mod = add_namesake(mod, r)
